@@ -5,6 +5,9 @@ import json, subprocess
 HOOK_COMMITS = []  # filled in as hook commits are made in /repo
 
 CHECKS = {
+ "C08": dict(cat="exploration", technique="runtime process monitors around the real statement pipeline: journaling worker processes (crash attribution), recover(), goroutine-leak snapshots, all-blocked/hard watchdog, table-xor-error, race detector on a sample",
+   text="Complete for token sequences up to length 2 (quick) / 3 (thorough) rendered to text; sampled generated statements of all eight kinds, their mutations, random bytes/UTF-8/keyword salad, against empty, populated and memoized stores.",
+   note="Termination is bounded progress (watchdog); leak = goroutine created by badwolf code after the pre-call snapshot that is still alive (blocked) after the call returned.", ref="DESIGN.md §5 C08"),
  "C03": dict(cat="exploration", technique="runtime reference-model monitor: generated SELECT statements run through the real lexer/parser/planner/Execute and compared row by row with a naive nested-loop evaluator of the pattern",
    text="Complete for the one-clause shape space in thorough (sampled to <=1 extraction in quick) and for all two-clause combinations of a reduced shape set in thorough; sampled random 2-4 clause patterns with bounds, several graphs and aliases; held on the statements generated, not on all programs.",
    note="Trusted: the ~250-line reference evaluator (bq.Match/Solve) implementing DESIGN.md Appendix A, canonical cell projection; cases run in worker processes so an engine-goroutine panic is attributed.", ref="DESIGN.md §5 C03, Appendix A"),
